@@ -4,16 +4,18 @@
    Model: Model/Diag.v (diagnostics_manager.go), Model/Events.v (handlers, HandleFileEventChanges, file index, error
    collection); the per-file analyses are the fields of `analysis` (any instance satisfying `analysis_ok`).
    Spec: Spec/FreshStart.v (`fresh_view`, `demanded`, `conformant`, the finding classes, `guard`).
-   `fixes` switches the repairs on: `deployed` (Model/Events.v) = the code as it is now, `no_fix` = the code before the
-   three fix: commits, `all_fix` = with the index repair too. General theorems are quantified over all flag values. *)
+   `fixes` switches the repairs on: `deployed` (Model/Events.v) = the code as it is now (six repairs), `round1` = the
+   code after round 1 (four repairs), `no_fix` = the code before any fix: commit. General theorems are quantified over
+   all flag values. *)
 From Coq Require Import List NArith Bool Permutation.
 From LH Require Import Model.Diag Model.Events Spec.FreshStart.
-From LH Require Import Proofs.EventsTracks Proofs.EventsInv Proofs.EventsToy Proofs.EventsToyOk.
+From LH Require Import Proofs.EventsTracks Proofs.EventsIndex Proofs.EventsInv Proofs.EventsToy Proofs.EventsToyOk.
 Import ListNotations.
 Local Open Scope N_scope.
 
-(* ---- the full statement of the property on the model of the code as it is now (`deployed` = the three repairs that
-        are in /repo; FALSE while the remaining finding classes are open: see the _refuted theorems) ---- *)
+(* ---- the full statement of the property on the model of the code as it is now (`deployed`). It is PROVED for every
+        history whose actions name workspace files only (C08_full_workspace below) and FALSE in general: the one
+        finding class that is still open is outside_file (C08_outside_file_refuted, C08_full_refuted) ---- *)
 Definition C08_full : Prop :=
   forall (A : analysis), analysis_ok A ->
   forall (dk : amap (text A)) (h : list (action A)),
@@ -31,8 +33,48 @@ Theorem C08_view_tracks_maps :
 Proof. exact view_tracks_maps. Qed.
 Print Assumptions C08_view_tracks_maps.
 
-(* ---- T1, guarded: `guard` = editor discipline (`conformant`) and none of the seven finding classes, each class
-        only while its repair flag is off. Watched-file notifications may name several files. ---- *)
+(* ---- T1, all histories (raw events included), all analyses: with the repaired RemoveOneFile the file index holds
+        exactly the project files (DESIGN: C08_index_refines) ---- *)
+Theorem C08_index_refines :
+  forall (A : analysis) (fx : fixes), fix_index fx = true ->
+  forall (dk : amap (text A)) (h : list (action A)),
+    p_index (pj (sv (fst (run A fx dk h)))) = p_files (pj (sv (fst (run A fx dk h)))).
+Proof. exact index_refines. Qed.
+Print Assumptions C08_index_refines.
+
+(* ---- T1, the property for the code as it is now: EVERY conformant history over workspace files (no class guard
+        left: all six repaired classes are impossible under `deployed`), every file, with or without unsaved edits ---- *)
+Theorem C08_full_workspace :
+  forall (A : analysis), analysis_ok A ->
+  forall (dk : amap (text A)) (h : list (action A)),
+    conformant A deployed dk h = true -> inside_only A h = true ->
+    forall f, Permutation (view (snd (run A deployed dk h)) f) (demanded A deployed (fst (run A deployed dk h)) f).
+Proof. exact deployed_view. Qed.
+Print Assumptions C08_full_workspace.
+
+(* no document has unsaved edits  =>  the client holds what a fresh start on the current files publishes *)
+Theorem C08_incremental_eq_fresh_deployed :
+  forall (A : analysis), analysis_ok A ->
+  forall (dk : amap (text A)) (h : list (action A)),
+    conformant A deployed dk h = true -> inside_only A h = true -> dirty (fst (run A deployed dk h)) = [] ->
+    forall f, Permutation (view (snd (run A deployed dk h)) f) (fresh_view A deployed (disk (fst (run A deployed dk h))) f).
+Proof. exact (fun A HA dk h Hc Hi => incremental_eq_fresh A deployed HA dk h (deployed_guard A dk h Hc Hi)). Qed.
+Print Assumptions C08_incremental_eq_fresh_deployed.
+
+(* a buffer with unsaved edits shows its own syntax errors if it has any, else the last saved non-syntax diagnostics *)
+Theorem C08_unsaved_view_deployed :
+  forall (A : analysis), analysis_ok A ->
+  forall (dk : amap (text A)) (h : list (action A)) (f : file),
+    conformant A deployed dk h = true -> inside_only A h = true -> In f (dirty (fst (run A deployed dk h))) ->
+    exists b, aget (ebuf (fst (run A deployed dk h))) f = Some b /\
+              Permutation (view (snd (run A deployed dk h)) f)
+                          (if is_nil (syn A b) then nonsyn (fresh_view A deployed (disk (fst (run A deployed dk h))) f) else syn A b).
+Proof. exact (fun A HA dk h f Hc Hi => unsaved_view A deployed HA dk h f (deployed_guard A dk h Hc Hi)). Qed.
+Print Assumptions C08_unsaved_view_deployed.
+
+(* ---- T1, guarded, for every combination of repair flags: `guard` = editor discipline (`conformant`) and none of the
+        seven finding classes, each class only while its repair flag is off (outside_file has no flag). Watched-file
+        notifications may name several files. ---- *)
 (* every file, whether or not it has unsaved edits, shows what the property demands (up to order) *)
 Theorem C08_guarded :
   forall (A : analysis) (fx : fixes), analysis_ok A ->
@@ -42,9 +84,8 @@ Theorem C08_guarded :
 Proof. exact guarded_view. Qed.
 Print Assumptions C08_guarded.
 
-(* the instance for the code as it is now: the guard excludes the four classes that are still open
-   (outside_file, unhidden, watched_dirty, deleted_require); live_cleared, close_revert and empty_shortcut are
-   constantly false under `deployed` *)
+(* the instance for the code as it is now: the guard excludes outside_file only; the other six classes are constantly
+   false under `deployed` (C08_repaired_classes_gone), which is how C08_full_workspace follows *)
 Theorem C08_guarded_deployed :
   forall (A : analysis), analysis_ok A ->
   forall (dk : amap (text A)) (h : list (action A)),
@@ -109,11 +150,6 @@ Ltac refute :=
   let H := fresh in intros H; apply perm_eqb_of_perm in H; vm_compute in H; discriminate H.
 Ltac repaired := apply toy_meets_of_guard; vm_compute; reflexivity.
 
-(* the deployed code with the index repair (work/fixes/C08-12-index-remove.diff) on top: what `deployed` becomes by
-   the edit `fix_index := true` in Model/Events.v *)
-Definition deployed_index_fixed : fixes :=
-  {| fix12a := fix12a deployed; fix12b := fix12b deployed; fix_index := true; fix_empty := fix_empty deployed |}.
-
 (* 12 (repaired by the fix: commit "a deleted file is removed from the file index"): a requires b; b is created and
    deleted; a gets its type 6 again, as after a fresh start; and the index refines the file set on that witness *)
 Definition w_deleted_require_dk : amap (list stmt) := [(0, [SR 1])].
@@ -127,21 +163,6 @@ Proof. vm_compute. reflexivity. Qed.
 Print Assumptions C08_index_refines_repaired.
 
 (* ---- still open ---- *)
-(* a's saved version has a syntax error, its unsaved buffer is clean; saving b changes a's saved list; the stale
-   syntax error is shown again although the buffer does not have it *)
-Definition w_unhidden_dk : amap (list stmt) := [(0, [SS; SU 1]); (1, [SC])].
-Definition w_unhidden : list (action toyA) := [AOpen 0; AChange 0 [SU 1]; AOpen 1; AChange 1 [SD 1]; ASave 1].
-Theorem C08_unhidden_refuted : refutes deployed 3 w_unhidden_dk w_unhidden 0.
-Proof. refute. Qed.
-Print Assumptions C08_unhidden_refuted.
-
-(* an external change of a file whose unsaved buffer has a syntax error drops the live entry *)
-Definition w_watched_dirty_dk : amap (list stmt) := [(0, [SL])].
-Definition w_watched_dirty : list (action toyA) := [AOpen 0; AChange 0 [SL; SS]; AWatched [WM 0 [SL; SL]]].
-Theorem C08_watched_dirty_refuted : refutes deployed 5 w_watched_dirty_dk w_watched_dirty 0.
-Proof. refute. Qed.
-Print Assumptions C08_watched_dirty_refuted.
-
 (* a file outside the workspace (p) is opened and closed again: its global keeps suppressing a's warning *)
 Definition w_outside_dk : amap (list stmt) := [(0, [SU 1]); (4, [SD 1])].
 Definition w_outside : list (action toyA) := [AOpen 4; AOpen 0; AChange 0 [SC; SU 1]; ASave 0; AClose 4].
@@ -151,12 +172,33 @@ Print Assumptions C08_outside_file_refuted.
 
 Theorem C08_full_refuted : ~ C08_full.
 Proof.
-  intros H. destruct C08_unhidden_refuted as [Hc [_ [Hk Hn]]]. apply Hn.
-  apply (H toyA toy_ok w_unhidden_dk w_unhidden); [vm_compute; reflexivity|exact Hk].
+  intros H. destruct C08_outside_file_refuted as [Hc [_ [Hk Hn]]]. apply Hn.
+  apply (H toyA toy_ok w_outside_dk w_outside); [vm_compute; reflexivity|exact Hk].
 Qed.
 Print Assumptions C08_full_refuted.
 
-(* ---- repaired (fix: commits 0734f52, af1552a, 85b8991): the former witnesses are inside the guard of the deployed
+(* ---- repaired in round 2 (fixes/C08-unhidden.diff, fixes/C08-watched-dirty.diff): the former witnesses meet the
+        property at every file under `deployed`; on the model of the round-1 code they refute it ---- *)
+(* a's saved version has a syntax error, its unsaved buffer is clean; saving b changes a's saved list; the syntax error
+   of the saved version stays hidden *)
+Definition w_unhidden_dk : amap (list stmt) := [(0, [SS; SU 1]); (1, [SC])].
+Definition w_unhidden : list (action toyA) := [AOpen 0; AChange 0 [SU 1]; AOpen 1; AChange 1 [SD 1]; ASave 1].
+Theorem C08_unhidden_repaired : toy_meets deployed w_unhidden_dk w_unhidden.
+Proof. repaired. Qed.
+Print Assumptions C08_unhidden_repaired.
+Example C08_unhidden_before_fix : refutes round1 3 w_unhidden_dk w_unhidden 0.
+Proof. refute. Qed.
+
+(* an external change of a file whose unsaved buffer has a syntax error: the syntax error stays on display *)
+Definition w_watched_dirty_dk : amap (list stmt) := [(0, [SL])].
+Definition w_watched_dirty : list (action toyA) := [AOpen 0; AChange 0 [SL; SS]; AWatched [WM 0 [SL; SL]]].
+Theorem C08_watched_dirty_repaired : toy_meets deployed w_watched_dirty_dk w_watched_dirty.
+Proof. repaired. Qed.
+Print Assumptions C08_watched_dirty_repaired.
+Example C08_watched_dirty_before_fix : refutes round1 5 w_watched_dirty_dk w_watched_dirty 0.
+Proof. refute. Qed.
+
+(* ---- repaired in round 1 (fix: commits 0734f52, af1552a, 85b8991): the former witnesses are inside the guard of the deployed
         model and meet the property at every file; on the model of the old code (no_fix) they refute it ---- *)
 (* 12a: a has an unsaved syntax error; saving b changes a's saved list; a's syntax error stays visible *)
 Definition w_live_cleared_dk : amap (list stmt) := [(0, [SU 1]); (1, [SC]); (2, [SL])].
@@ -186,25 +228,41 @@ Print Assumptions C08_empty_shortcut_repaired.
 Example C08_empty_shortcut_before_fix : refutes no_fix 7 w_empty_shortcut_dk w_empty_shortcut 0.
 Proof. refute. Qed.
 
-(* under `deployed` the three repaired classes never occur: their predicates are constantly false *)
+(* under `deployed` the six repaired classes never occur: their predicates are constantly false *)
 Theorem C08_repaired_classes_gone :
   forall (A : analysis) (w w' : world A) (a : action A),
     k_live_cleared A deployed w w' = false /\ k_close_revert A deployed w a = false /\
-    k_empty_shortcut A deployed w a = false.
+    k_empty_shortcut A deployed w a = false /\ k_unhidden A deployed w w' = false /\
+    k_watched_dirty A deployed w a = false /\ k_stale_ref A deployed w' = false.
 Proof. exact repaired_classes_gone. Qed.
 Print Assumptions C08_repaired_classes_gone.
 
-(* ---- non-vacuity: a non-trivial history satisfies the guard of the deployed model: fix-then-break cycles with saves,
-        an unsaved syntax error that stays visible while another file's save changes this file's saved list (12a), a
-        buffer closed unsaved over a broken disk file (12b), a file emptied and saved (empty shortcut), creation and
-        deletion of files in notifications naming several files, a require that resolves ---- *)
+(* ---- non-vacuity: a non-trivial history is conformant and names workspace files only (the hypotheses of
+        C08_full_workspace; hence it satisfies the guard of the deployed model): fix-then-break cycles with saves, an
+        unsaved syntax error that stays visible while another file's save changes this file's saved list (12a), a buffer
+        closed unsaved over a broken disk file (12b), a file emptied and saved (empty shortcut), creation and deletion
+        of files in notifications naming several files, a require that resolves and then loses its target (index), an
+        external change of a file whose unsaved buffer has a syntax error (watched_dirty), a clean unsaved buffer over a
+        broken saved version whose saved list changes through another file's save (unhidden) ---- *)
 Definition g_dk : amap (list stmt) := [(0, [SL; SS]); (1, [SU 1]); (2, [SR 0; SC])].
 Definition g_h : list (action toyA) :=
   [AOpen 0; AChange 0 [SL]; ASave 0; AChange 0 [SL; SS]; AOpen 2; AChange 2 [SR 0; SL]; ASave 2; ASave 0;
    AChange 0 [SC]; AClose 0; AOpen 0; AChange 0 [SU 1; SS]; AOpen 1; AChange 1 [SD 1]; ASave 1; AChange 0 [];
    ASave 0; AChange 0 [SL; SD 1]; ASave 0; AClose 0; AClose 1;
-   AWatched [WC 3 [SU 2; SL]]; AWatched [WM 3 [SD 2]; WM 1 [SU 2]]; AWatched [WD 3; WM 1 [SU 1]]; AClose 2].
+   AWatched [WC 3 [SU 2; SL]]; AWatched [WM 3 [SD 2]; WM 1 [SU 2]]; AWatched [WD 3; WM 1 [SU 1]]; AClose 2;
+   AOpen 0; AChange 0 [SL; SS]; AWatched [WM 0 [SS; SU 2]; WD 1]; AChange 0 [SU 2];
+   AWatched [WC 3 [SD 2]]; AWatched [WD 3; WD 2]; ASave 0; AClose 0].
 Example C08_guard_inhabited :
-  guard toyA deployed g_dk g_h = true /\ dirty (fst (run toyA deployed g_dk g_h)) = [] /\
-  view (snd (run toyA deployed g_dk g_h)) 1 = [] /\ view (snd (run toyA deployed g_dk g_h)) 2 = [(4, 1, 0)].
+  conformant toyA deployed g_dk g_h = true /\ inside_only toyA g_h = true /\ guard toyA deployed g_dk g_h = true /\
+  dirty (fst (run toyA deployed g_dk g_h)) = [] /\
+  view (snd (run toyA deployed g_dk g_h)) 0 = [(2, 0, 2)] /\ view (snd (run toyA deployed g_dk g_h)) 2 = [].
+Proof. vm_compute. auto 10. Qed.
+(* inside that history: after the first external change the unsaved syntax error of a is still shown, and after the
+   creation of d (which changes a's saved list) the stale syntax error of a's saved version stays hidden *)
+Example C08_guard_inhabited_mid :
+  let h1 := firstn 28 g_h in let h2 := firstn 30 g_h in
+  view (snd (run toyA deployed g_dk h1)) 0 = [(1, 1, 0)] /\
+  vget (saved (ds (sv (fst (run toyA deployed g_dk h1))))) 0 = [(1, 0, 0); (2, 1, 2)] /\
+  view (snd (run toyA deployed g_dk h2)) 0 = [] /\
+  vget (saved (ds (sv (fst (run toyA deployed g_dk h2))))) 0 = [(1, 0, 0)].
 Proof. vm_compute. auto. Qed.
